@@ -419,8 +419,17 @@ def run(chk):
     n_pairs = 0
     per_class = {}
     value_sets = 1 if quick else 4
+    # the known versions that are not supported as shipped are declared supported at run time, the documented way
+    # (SUPPORTED_MINECRAFT_VERSIONS[id] = protocol; initglobals()): "every supported protocol version" includes them then
+    shipped = list(mc.SUPPORTED_PROTOCOL_VERSIONS)
+    added_ids = [vid for vid in mc.KNOWN_MINECRAFT_VERSIONS if vid not in mc.SUPPORTED_MINECRAFT_VERSIONS]
+    for vid in added_ids:
+        mc.SUPPORTED_MINECRAFT_VERSIONS[vid] = mc.KNOWN_MINECRAFT_VERSIONS[vid]
+    mc.initglobals()
+    chk.extra['versions_supported_as_shipped'] = len(shipped)
+    chk.extra['versions_enabled_at_run_time'] = len(mc.SUPPORTED_PROTOCOL_VERSIONS) - len(shipped)
     shared_ctx = ConnectionContext(protocol_version=mc.SUPPORTED_PROTOCOL_VERSIONS[0])
-    for vi, v in enumerate(mc.SUPPORTED_PROTOCOL_VERSIONS):
+    for vi, v in enumerate(list(mc.SUPPORTED_PROTOCOL_VERSIONS)):
         # the library re-uses one long-lived context and re-assigns its version on connect(): do both
         if vi % 2:
             ctx = shared_ctx
@@ -476,6 +485,11 @@ def run(chk):
                                     if key not in byte_obs and len(payload) < 2000:
                                         byte_obs[key] = {'id': table_id, 'fields': [[d, abs_of(d, val)] for d, (_, t, val) in zip(ds, fl)],
                                                          'payload': list(payload), 'cls': cls.__name__, 'v': v}
+    for vid in added_ids:
+        del mc.SUPPORTED_MINECRAFT_VERSIONS[vid]
+    mc.initglobals()
+    if list(mc.SUPPORTED_PROTOCOL_VERSIONS) != shipped:
+        raise core.MachineryError('the supported versions were not restored')
     # ---- the law, judged by TLC
     items = list(law_obs.items())
     obs_list = [{'wrote': k[0], 'idok': k[1], 'remaining': k[2], 'same': k[3], 'reprok': k[4], 'n': rec['n']} for k, rec in items]
